@@ -8,7 +8,7 @@ THEOREMS = []
 STREAMS = [("C03", 1500, 60000)]
 SHARD = 3000
 RELEASE_TOO = True
-RULE = ("histories of add_node/remove_node/add_edge/remove_edge/clear/edge_weight_mut/extend/into_graph+from_graph and "
+RULE = ("(every add_edge is repeated through data::Build::add_edge on a clone; the battery also walks all_edges() and nodes() from the back, and checks EdgeIndexable) histories of add_node/remove_node/add_edge/remove_edge/clear/edge_weight_mut/extend/into_graph+from_graph and "
         "queries over a pool of 3..7 i32 node values including negatives, 12% self-loops, reciprocal directed pairs, "
         "removals aimed at existing edges in either orientation, Directed and Undirected, RandomState and FxHasher, "
         "debug and release builds; after every mutating call the whole map is dumped (nodes, all_edges, and for every "
